@@ -140,7 +140,13 @@ def main():
             if meta.get("benign"):
                 continue
             sid = os.path.basename(os.path.dirname(mp))
-            r = check(sid, [meta["property"]])
+            try:
+                r = check(sid, [meta["property"]])
+            except RuntimeError as e:
+                # the patch no longer applies to /repo HEAD (a later fix touched the same lines): it has to be rebased
+                print("NOAPPLY %s %s :: %s" % (sid, meta["property"], str(e)[:120]))
+                missed.append(sid)
+                continue
             ok = r[meta["property"]]["rc"] == 1
             print("%s %s %s :: %s" % ("CAUGHT" if ok else "MISSED", sid, meta["property"], r[meta["property"]]["first"][:200]))
             if not ok:
